@@ -826,6 +826,17 @@ func genGlobSpec(r *hx.Rng, id int) Spec {
 	s.Text = pre + c + post
 	s.Marker, s.Delta = pre+c+post, len(pre)
 	s.Variant = "ref-char-" + c
+	if s.Site != "on.push.paths" && r.Chance(1, 4) && !(s.Flow && s.Style == 0) {
+		// the END of a character range is a character that a Git ref may not contain
+		rc := string("~^:"[r.Intn(3)])
+		if s.Style == 0 && rc == ":" {
+			rc = "~"
+		}
+		s.Text = pre + "[+-" + rc + "]" + post
+		s.Marker, s.Delta = s.Text, len(pre)+3
+		s.Variant = "range-end-" + rc
+		return s
+	}
 	if s.Style != 0 && r.Chance(1, 3) {
 		// negated pattern ('!' cannot start a plain scalar): the offending character is one further right
 		s.Text = "!" + s.Text
